@@ -529,6 +529,17 @@ class Executor:
             if isinstance(op, ast.NotEq):
                 r = (not r) if isinstance(r, bool) else z3.Not(r)
             return r
+        if isinstance(a, Obj) and isinstance(op, (ast.Eq, ast.NotEq)):
+            r = None
+            if a.cls.startswith("agilerl"):
+                m = front.find_method(a.cls, "__eq__")
+                if m is not None:
+                    r = to_bool(self.call_function(m[0], m[1], m[2], [a, b], {}, st, self.top_frame))
+            if r is None:
+                r = a is b          # default object equality is identity
+            if isinstance(op, ast.NotEq):
+                r = (not r) if isinstance(r, bool) else z3.Not(r)
+            return r
         if not is_sym(a) and not is_sym(b):
             if isinstance(a, (Obj, Seq)) or isinstance(b, (Obj, Seq)):
                 raise Undecided("comparison of objects")
